@@ -18,7 +18,7 @@ func init() { checks["C14"] = c14 }
 func c14(args []string) {
 	c := chk.New("C14", "exploration", args)
 	c.Build(false)
-	c.Rule("in-process batches (subject mode 'tempdir'): Task.TempDir() of tasks built with the public NewTask for identities (process name, in-port -> path, sub-stream members, parameters, tags) enumerated exhaustively over a small alphabet (names {a,b,ab,A}; paths over segments {a,b,ab,c}, relative and absolute; 0-2 parameters / tags with values {a,b,ab,a_b,b_c}; sub-streams of 0-2 members) and drawn randomly from large ones (names up to 420 bytes incl. every length 1..420, deep paths); oracle: identities are grouped by TempDir(): two different identities with the same directory are a collision; every identity is evaluated 8 times from freshly built maps (stability); every identity is evaluated again in a second process whose working directory lies four levels deeper (stability across runs, also after the project directory was moved); every name is one path segment of 1..255 bytes; identities that differ only in a special value (printf / date verbs with different flags, blanks, surrounding white space, case, non-ASCII, shell metacharacters) as parameter value, tag value and process name; parameter names differing only in case. distinct_nontrivial = distinct identities evaluated")
+	c.Rule("in-process batches (subject mode 'tempdir'): Task.TempDir() of tasks built with the public NewTask for identities (process name, in-port -> path, sub-stream members, parameters, tags) enumerated exhaustively over a small alphabet (names {a,b,ab,A}; paths over segments {a,b,ab,c}, relative and absolute; 0-2 parameters / tags with values {a,b,ab,a_b,b_c}; sub-streams of 0-2 members) and drawn randomly from large ones (names up to 420 bytes incl. every length 1..420, deep paths); oracle: identities are grouped by TempDir(): two different identities with the same directory are a collision; every identity is evaluated 8 times from freshly built maps (stability); every identity is evaluated again in a second process whose working directory lies four levels deeper (stability across runs, also after the project directory was moved); every name is one path segment of 1..255 bytes; identities whose input paths exist as symbolic links to one file / lead through a symbolic link to a directory in the first process's working directory; identities that differ only in a special value (printf / date verbs with different flags, blanks, surrounding white space, case, non-ASCII, shell metacharacters) as parameter value, tag value and process name; parameter names differing only in case. distinct_nontrivial = distinct identities evaluated")
 	c.Assume("identities are compared on cleaned paths", "known finding: the hash pre-image is a separator-less concatenation of the pieces; collisions between identities whose reference pre-images are equal are reported as KNOWN-FINDING, every other collision is a violation")
 	rng := c.Rand("c14")
 	cases := gen.TDExhaustive(c.Thorough())
@@ -57,6 +57,17 @@ func c14(args []string) {
 		}
 		w.Flush()
 		f.Close()
+		// some input paths of the identities exist in the first process's working directory, as symbolic links to one
+		// file and through a symbolic link to a directory: the name depends on the path as written, not on what it
+		// resolves to (and the second process, where nothing exists, must give the same names)
+		wd := filepath.Join(root, "wd")
+		os.MkdirAll(filepath.Join(wd, "data"), 0777)
+		os.MkdirAll(filepath.Join(wd, "lnk"), 0777)
+		os.WriteFile(filepath.Join(wd, "data", "sample.txt"), []byte("sample\n"), 0644)
+		os.WriteFile(filepath.Join(wd, "lnk", "real.txt"), []byte("real\n"), 0644)
+		os.Symlink("../data/sample.txt", filepath.Join(wd, "lnk", "a.txt"))
+		os.Symlink("../data/sample.txt", filepath.Join(wd, "lnk", "b.txt"))
+		os.Symlink("data", filepath.Join(wd, "ldir"))
 		rc := &run.Case{Root: root, Bin: c.Bin, Mode: "tempdir", Args: []string{in, out}, KeepWd: true}
 		r := rc.Run()
 		if r.Exit != 0 || !strings.Contains(r.Output(), "TD-DONE") {
